@@ -81,6 +81,18 @@ MUTATIONS = [
     ("tlexport/cipher_suite_parser.py", "            if part == \"TagLength\":", "            if part == \"KeyLength\":", "split_cipher_suite: default tag length under the wrong part"),
     ("tlexport/cipher_suite_parser.py", "        elif \"CCM\" in suite_string:", "        elif \"CCM_8\" in suite_string:", "split_cipher_suite: only CCM_8 suites become AESCCM"),
     ("tlexport/cipher_suite_parser.py", "        \"AES_256\": 32,", "        \"AES_256\": 24,", "cipher_suite_parts: AES_256 key length 24"),
+    ("tlexport/quic/quic_dissector.py", "        result += (bytes([byte1 ^ byte2]))", "        result += (bytes([byte1 | byte2]))", "byte_xor: or instead of xor"),
+    ("tlexport/quic/quic_dissector.py", "        first_packet_byte = byte_xor(bytes([first_packet_byte]), byte_and(bytes([mask[0]]), bytes.fromhex(\"0f\")))", "        first_packet_byte = byte_xor(bytes([first_packet_byte]), byte_and(bytes([mask[0]]), bytes.fromhex(\"1f\")))", "remove_header_protection: long header unmasks five bits"),
+    ("tlexport/quic/quic_dissector.py", "    packet_number_field = byte_xor(datagram_data[pn_offset:pn_offset + pn_len], mask[1: pn_len + 1])", "    packet_number_field = byte_xor(datagram_data[pn_offset:pn_offset + pn_len], mask[0: pn_len])", "remove_header_protection: packet number unmasked with mask[0:]"),
+    ("tlexport/quic/quic_dissector.py", "                pn_offset = 7 + len(dcid) + len(scid)", "                pn_offset = 6 + len(dcid) + len(scid)", "extract_quic_packet: packet number offset one byte early"),
+    ("tlexport/quic/quic_dissector.py", "                        pn_offset += packet_len_len + token_len_len + token_len\n", "                        pn_offset += packet_len_len + token_len_len\n", "extract_quic_packet: Initial token not skipped"),
+    ("tlexport/quic/quic_dissector.py", "                        sample_offset = pn_offset + 4\n\n                        sample = datagram_data[sample_offset: sample_offset + 16]\n\n                        if isserver:\n                            hp_key = keys['server_initial_hp']", "                        sample_offset = pn_offset + 3\n\n                        sample = datagram_data[sample_offset: sample_offset + 16]\n\n                        if isserver:\n                            hp_key = keys['server_initial_hp']", "extract_quic_packet: Initial sample taken one byte early"),
+    ("tlexport/quic/quic_dissector.py", "                                hp_key = keys[\"client_early_hp\"]", "                                hp_key = keys[\"client_handshake_hp\"]", "extract_quic_packet: 0-RTT unprotected with the handshake key"),
+    ("tlexport/quic/quic_dissector.py", "                        retry_token = header_parts[-1][:-16]", "                        retry_token = header_parts[-1][:-15]", "extract_quic_packet: Retry tag split at 15"),
+    ("tlexport/quic/quic_dissector.py", "                key_phase = decrypted_header[0][0] >> 2 & 1", "                key_phase = decrypted_header[0][0] >> 3 & 1", "extract_quic_packet: key phase from the wrong bit"),
+    ("tlexport/quic/quic_dissector.py", "                total_packet_len = 1 + len(guessed_dcid) + decrypted_header[-1] + len(payload)", "                total_packet_len = len(guessed_dcid) + decrypted_header[-1] + len(payload)", "extract_quic_packet: short packet length one short"),
+    ("tlexport/quic/quic_dissector.py", "        if int.from_bytes(datagram_data, \"big\") == 0:    # If we have a zero-padding at the end", "        if int.from_bytes(datagram_data[:4], \"big\") == 0:    # If we have a zero-padding at the end", "extract_quic_packet: four zero bytes count as padding"),
+    ("tlexport/quic/quic_dissector.py", "                if version == b\"\\x00\\x00\\x00\\x00\":\n                    packet_type = QuicPacketType.VERSION_NEG", "                if version == b\"\\x00\\x00\\x00\\x01\":\n                    packet_type = QuicPacketType.VERSION_NEG", "extract_quic_packet: version 1 taken for Version Negotiation"),
     ("tlexport/main.py", "if ((int(packet.tls_data[0]) & 0x40) >> 6) == 1 or args.greasy:", "if ((int(packet.tls_data[0]) & 0x80) >> 7) == 1 or args.greasy:", "run: fixed bit is bit 7"),
     ("tlexport/main.py", "                if len(cid) > 0 and cid == packet_payload[1:1 + len(cid)]:", "                if cid == packet_payload[1:1 + len(cid)]:", "handle_quic_packet: empty CID matches"),
     ("tlexport/main.py", "                    candidates = session.server_cids\n", "                    candidates = session.client_cids\n", "handle_quic_packet: sender-side CIDs"),
@@ -91,6 +103,9 @@ MUTATIONS = [
 
 # behaviour-preserving rewrites: (file, [(old, new)…], what)
 REWRITES = [
+    ("tlexport/quic/quic_dissector.py", [("                pn_offset = 1 + len(guessed_dcid)\n                sample_offset = pn_offset + 4\n                sample = datagram_data[sample_offset:sample_offset + 16]\n",
+                                          "                pn_offset = len(guessed_dcid) + 1\n                sample = datagram_data[pn_offset + 4:pn_offset + 4 + 16]\n")],
+     "extract_quic_packet: short-header sample offset inlined"),
     ("tlexport/cipher_suite_parser.py", [("        if not added_part:", "        if added_part == 0:")], "split_cipher_suite: `not added_part` written `added_part == 0`"),
     ("tlexport/checksums.py", [("        first = checksum >> 16\n        last = checksum & 0xFFFF\n        checksum = first + last",
                                 "        checksum = (checksum & 0xFFFF) + (checksum >> 16)")], "ones_complement_checksum: fold in one line, operands swapped"),
@@ -118,8 +133,10 @@ REWRITES = [
 def group_of(what):
     """the group(s) whose theorems a mutation/rewrite labelled `what` concerns"""
     fn = what.split(":")[0]
-    table = {"get_header_type": ["QuicDissect"], "get_packet_type": ["QuicDissect"], "decode_variable_length_int": ["Varint", "Frames"],
-             "get_variable_length_int_length": ["Varint", "Frames"], "get_full_packet_number": ["Pn"], "set_largest_packet_number": ["Pn"], "check_key_epoch": ["QuicSess"],
+    table = {"get_header_type": ["QuicDissect", "QuicDissect2"], "get_packet_type": ["QuicDissect", "QuicDissect2"],
+             "decode_variable_length_int": ["Varint", "Frames", "QuicDissect2"],
+             "get_variable_length_int_length": ["Varint", "Frames", "QuicDissect2"],
+             "byte_xor": ["QuicDissect2"], "remove_header_protection": ["QuicDissect2"], "extract_quic_packet": ["QuicDissect2"], "get_full_packet_number": ["Pn"], "set_largest_packet_number": ["Pn"], "check_key_epoch": ["QuicSess"],
              "packet_isserver": ["QuicSess"], "matches_session_dgram": ["QuicSess"], "handle_alert": ["TlsSess"],
              "handle_tls_client_hello": ["TlsSess"], "server hello": ["TlsSess"], "set_client_and_server_ports": ["Ports"],
              "matches_session": ["Demux"], "run": ["Demux"], "OutputBuilder": ["Ports"], "QUICOutputbuilder": ["Ports"],
@@ -214,11 +231,15 @@ def mutation_test():
             st, det, failed = build_props(SCRATCH)
             subprocess.run(["git", "-C", SCRATCH, "checkout", "--", file], check=True)
             caught = st != "proved"
-            scoped = failed == set(group_of(what))          # exactly the mutated function's group fails, all others build
+            expected = set(group_of(what))
+            for g, deps in translate.GROUP_DEPS.items():          # … and the groups that call into it
+                if expected & set(deps):
+                    expected.add(g)
+            scoped = failed == expected                        # exactly these fail, all others build
             ok &= caught and scoped
             rows.append({"kind": "mutation", "what": what, "outcome": st, "where": det[:4], "failed_groups": sorted(failed), "scoped": scoped})
             print(f"  MUTATION {'caught' if caught else 'MISSED'} [{st}] groups failing: {sorted(failed)} "
-                  f"{'(only its own)' if scoped else 'SCOPE VIOLATED, expected ' + str(group_of(what))} {what}: "
+                  f"{'(only its own)' if scoped else 'SCOPE VIOLATED, expected ' + str(sorted(expected))} {what}: "
                   f"{'; '.join(str(d)[:120] for d in det[:3])}  ({time.time() - t0:.1f} s)")
         for file, pairs, what in REWRITES:
             t0 = time.time()
